@@ -20,6 +20,10 @@ pub struct Snip {
 /// overload signatures, abstract members: functions and methods **without a body**), unusual class members, modern
 /// operators, module forms.  One program each; they are also mixed into recombined programs.
 pub const ODDITIES: &[&str] = &[
+  "/** @jsxRuntime bogus */\nconst a = 1;",
+  "/* @jsx a..b */\nconst a = <div/>;",
+  "/*\n * @jsxFrag class\n */\nconst a = <></>;",
+  "/** @jsxRuntime classic @jsx h. */\nexport {};",
   "declare function* g1(): Generator<number>;",
   "function* g2(a: string): Generator<string>;\nfunction* g2(a: any) { yield a; }",
   "abstract class A1 { abstract *walk(): Generator<number>; abstract m(): void; abstract get p(): number; abstract set p(v: number); }",
@@ -111,13 +115,13 @@ pub fn load_corpus() -> Vec<Snip> {
   v
 }
 
-enum Full {
+pub enum Full {
   Ok(ParsedSource, Vec<LintDiagnostic>),
   ParseErr,
   Panic(String),
 }
 
-fn lint_full(l: &Linter, src: &str, ext: &str, cfg: &Cfg) -> Full {
+pub fn lint_full(l: &Linter, src: &str, ext: &str, cfg: &Cfg) -> Full {
   let spec = spec_for(ext);
   let mt = MediaType::from_specifier(&spec);
   let r = catch_unwind(AssertUnwindSafe(|| {
@@ -164,7 +168,58 @@ fn payload(rng: &mut Rng, must: &[&str]) -> String {
 }
 
 /// programs that trigger the fix-providing rules, with hostile payloads in the text the fix has to re-emit
+/// import / export programs for verbatim-module-syntax: every import form x how each binding is used (as a value, in
+/// a type, in `typeof`, not at all) x how it is exported again (`export { x }`, renamed, `export type`, default, not)
+pub fn gen_verbatim_program(rng: &mut Rng) -> String {
+  let mut out = String::new();
+  let mut names: Vec<String> = vec![];
+  let n_imports = rng.range(1, 3);
+  for i in 0..n_imports {
+    let (d, ns, a, b) = (format!("def{}", i), format!("ns{}", i), format!("Aa{}", i), format!("bb{}", i));
+    let line = match rng.below(9) {
+      0 => { names.push(d.clone()); format!("import {} from \"m{}\";", d, i) }
+      1 => { names.push(ns.clone()); format!("import * as {} from \"m{}\";", ns, i) }
+      2 => { names.push(a.clone()); names.push(b.clone()); format!("import {{ {}, {} }} from \"m{}\";", a, b, i) }
+      3 => { names.push(d.clone()); names.push(a.clone()); format!("import {}, {{ {} }} from \"m{}\";", d, a, i) }
+      4 => { names.push(d.clone()); names.push(a.clone()); format!("import {}, {{ type {} }} from \"m{}\";", d, a, i) }
+      5 => { names.push(a.clone()); names.push(b.clone()); format!("import {{ type {}, {} }} from \"m{}\";", a, b, i) }
+      6 => { names.push(d.clone()); names.push(ns.clone()); format!("import {}, * as {} from \"m{}\";", d, ns, i) }
+      7 => { names.push(a.clone()); format!("import {{ orig as {} }} from \"m{}\";", a, i) }
+      _ => { names.push(a.clone()); format!("import type {{ {} }} from \"m{}\";", a, i) }
+    };
+    out.push_str(&line);
+    out.push('\n');
+  }
+  for (k, n) in names.iter().enumerate() {
+    match rng.below(7) {
+      0 => out.push_str(&format!("use({});\n", n)),
+      1 => out.push_str(&format!("let t{}: {};\n", k, n)),
+      2 => out.push_str(&format!("let q{}: typeof {};\n", k, n)),
+      3 => out.push_str(&format!("type T{} = {} | null;\n", k, n)),
+      4 => out.push_str(&format!("let t{}: {}; use({});\n", k, n, n)),
+      _ => {}
+    }
+  }
+  for (k, n) in names.iter().enumerate() {
+    match rng.below(9) {
+      0 | 1 => out.push_str(&format!("export {{ {} }};\n", n)),
+      2 => out.push_str(&format!("export {{ {} as api{} }};\n", n, k)),
+      3 => out.push_str(&format!("export type {{ {} }};\n", n)),
+      4 => out.push_str(&format!("export {{ type {} }};\n", n)),
+      5 if k == 0 => out.push_str(&format!("export default {};\n", n)),
+      _ => {}
+    }
+  }
+  if rng.chance(1, 4) {
+    out.push_str("export { x } from \"other\";\n");
+  }
+  out
+}
+
 pub fn gen_fix_program(rng: &mut Rng) -> (String, String) {
+  if rng.chance(1, 6) {
+    return ("verbatim-module-syntax".into(), gen_verbatim_program(rng));
+  }
   match rng.below(12) {
     0 | 1 | 2 => ("jsx-no-unescaped-entities".into(), format!("const a = <div>{}</div>;", payload(rng, &[">", "}"]).replace('"', "q"))),
     3 | 4 => ("jsx-curly-braces".into(), format!("const a = <div foo={{\"{}\"}} />;", payload(rng, &[]).replace('\\', "\\\\").replace('"', "\\\""))),
@@ -281,6 +336,24 @@ pub fn run(args: &Args) {
     }
     out.add("forced-gap-mutated-fix-snippets", forced.len() as u64);
   }
+  // for the properties about rule independence / determinism / fixes: programs in which several fix-providing rules
+  // meet, with the imports before, between and after the uses (a fix that inserts an import looks for them)
+  if props.is_empty() || props.contains("C04") || props.contains("C02") || props.contains("C13") {
+    let mut frng = Rng::new(args.seed ^ 0xC0557);
+    let parts = [
+      "import a from \"./a.ts\";", "import z, { y } from \"z\";", "const e = process.env;", "process.exit(1);", "const b = Buffer.from(\"x\");",
+      "window.foo;", "setImmediate(() => {});", "f(a, z, y);", "const g = global.g;", "window.fetch(\"u\");", "export const q = process.argv;",
+    ];
+    let n = args.count / 10 + 12;
+    for _ in 0..n {
+      let k = frng.range(2, 6);
+      let mut v: Vec<&str> = (0..k).map(|_| parts[frng.below(parts.len())]).collect();
+      v.dedup();
+      forced.push(("no-process-global".to_string(), v.join("\n")));
+    }
+    out.add("forced-cross-rule-fix-programs", n as u64);
+  }
+  let ml_jsx: Vec<usize> = corpus.iter().enumerate().filter(|(_, sn)| sn.src.contains('\n') && (sn.src.contains("</") || sn.src.contains("/>"))).map(|(i, _)| i).collect();
   let replay: Option<Value> = args.opts.get("replay").and_then(|p| std::fs::read_to_string(p).ok()).and_then(|s| serde_json::from_str(&s).ok());
   for case_no in 0..args.count {
     let mut crng = rng.fork();
@@ -290,6 +363,12 @@ pub fn run(args: &Args) {
     } else if case_no % 3 == 0 && case_no / 3 < forced.len() {
       out.count("kind=forced-gap-mutated");
       forced[case_no / 3].clone()
+    } else if want("C09") && case_no % 5 == 2 && case_no / 5 < ml_jsx.len() {
+      // every multi-line JSX snippet of the corpus, in turn: line breaks inside JSX text are where the parser's
+      // own line-ending normalisation (value vs raw) matters
+      out.count("kind=multi-line-jsx");
+      let s = &corpus[ml_jsx[(case_no / 5 + args.seed as usize) % ml_jsx.len()]];
+      (s.rule.clone(), s.src.clone())
     } else if want("C13") && !props.is_empty() && case_no % 2 == 1 {
       gen_fix_program(&mut crng)
     } else if case_no % 11 == 5 {
@@ -330,6 +409,17 @@ pub fn run(args: &Args) {
         }
         None => (rule, src),
       }
+    } else if (src.contains("</") || src.contains("/>")) && crng.chance(1, 3) {
+      // JSX reflow: closing tags and expression containers on lines of their own (line breaks inside JSX text)
+      out.count("shape=jsx-reflow");
+      (rule, src.replace("></", ">\n    </").replace("}</", "}\n  </").replace(">{", ">\n  {"))
+    } else if crng.chance(1, 10) {
+      // a leading block comment with compiler pragmas, well-formed or not: they are read before any rule runs
+      out.count("shape=leading-pragma");
+      let name = ["@jsx", "@jsxFrag", "@jsxRuntime", "@jsxImportSource", "@jsxRuntime classic @jsx", "@jsx h @jsxRuntime", "@ts-nocheck @jsx", "@jsxFrag Fragment @jsx"][crng.below(8)];
+      let val = ["h", "React.createElement", "a..b", "class", "if", "a.", ".a", "automatic", "classic", "bogus", "", "a+b", "é.ü", "this.h", "null", "0", "a.0", "new.target", "x.#y", "await", "\u{200d}", "a\u{a0}b", "h h h"][crng.below(23)];
+      let open = ["/**", "/*", "/*\n *", "/*!\n"][crng.below(4)];
+      (rule, format!("{} {} {} */\n{}", open, name, val, src))
     } else if crng.chance(1, 5) {
       // end-of-file corner: the very last character of the file belongs to a comment / string / template /
       // identifier / white space and is not ASCII; no trailing newline
